@@ -2,6 +2,6 @@ package main
 
 func init() {
 	plans["C34"] = Plan{Pkg: pkg("C34"), Steps: []Step{
-		{Run: "TestLinearizable", Quick: 800, Thorough: 32000, QShards: 8, TShards: 16},
+		{Run: "TestLinearizable", Quick: 1600, Thorough: 32000, QShards: 8, TShards: 16},
 	}}
 }
